@@ -22,7 +22,7 @@ import base64
 import re
 
 from .. import coqterm as T
-from .C18_strings import B
+from .C18_strings import B, queue
 
 CHECKERS = ['Wire/CmdLineCheck']
 HEADER = ('From PV Require Import Base.Prelude Wire.Lex Wire.Strings Wire.StringsCheck '
@@ -315,6 +315,10 @@ TEMPLATES = [
     ('list', ['create'], b'LIST', [('s', b''), ('m', None)], []),
     ('append', ['create'], b'APPEND', [('m', None), ('r', b'(\\Seen)'),
                                        ('lit', b'Subject: hi\r\n\r\nbody {3+}\r\n')], ['status']),
+    # a message above the 4096-byte limit of ordinary literals: only APPEND may carry it,
+    # whatever the letter case of the command word
+    ('append_big', ['create'], b'APPEND', [('m', None), ('lit', b'Subject: big\r\n\r\n' + b'x' * 4990 + b'\r\n')],
+     ['status']),
     ('copy', ['create', 'selinbox'], b'COPY', [('r', b'1'), ('m', None)], ['status']),
     ('search_subject', ['selinbox'], b'SEARCH', [('r', b'SUBJECT'), ('s', None)], []),
     ('search_header', ['selinbox'], b'SEARCH', [('r', b'HEADER'), ('s', b'Subject'), ('s', None)], []),
@@ -335,6 +339,8 @@ def build_line(rng, tag, word, args, variant):
     from .C18_strings import spellings
     w = word.lower() if variant['case'] == 'lower' else \
         (rand_case(rng, word) if variant['case'] == 'mixed' else word)
+    if variant['case'] == 'mixed' and w in (word.upper(), word.lower()):
+        w = word[:1].lower() + word[1:].upper()
     line = tag + b' ' + w
     pos = [0]
 
@@ -414,6 +420,8 @@ def e2e_monitor(ctx) -> None:
             values = SEARCH_VALUES
         elif tname.startswith('login') or tname == 'fetch_fields':
             values = [None]
+        elif tname == 'append_big':
+            values = ['Foo', 'a b']
         else:
             values = NAMES
         for v in values:
@@ -482,7 +490,7 @@ def e2e_monitor(ctx) -> None:
                              'line_b': line.hex(), 'setup': setup_}, obs)
                 break
         # reported names decode to the created name (reference decoder)
-        if tname not in ('create', 'subscribe', 'append', 'copy'):
+        if tname not in ('create', 'subscribe', 'append', 'append_big', 'copy'):
             continue
         for var, line, res in [r for r in results if r[0]['kinds'] == 'lit'][:1]:   # all-{n} sibling
             for key, kind in (('list', b'LIST'), ('lsub', b'LSUB'), ('status', b'STATUS')):
@@ -610,7 +618,7 @@ def section(ctx) -> None:
 
     # --- Space / EndLine / _literal_plus
     stream = small_strings(b' \r\nx', 4 if quick else 5) + sweep([b'  \r\nx', b' \n'], vals_)
-    stream = thin(ctx, stream, 600)
+    stream = thin(ctx, stream, 450)
     c1, c2 = [], []
     for buf in stream:
         r = impl_parse(Space, buf)
@@ -619,12 +627,12 @@ def section(ctx) -> None:
         c2.append(T.pair(B(buf), 'None' if r[0] != 'ok' else T.option(B(r[2]))))
         ctx.count(('space', buf))
     for nm, cs, chk in (('space', c1, 'chk_space'), ('endline', c2, 'chk_endline')):
-        for i in ctx.run_cases(nm, HEADER, 'bytes * option bytes', cs, chk, **SH)[:5]:
-            ctx.disagreement(nm, {'input': stream[i].hex()})
+        queue(ctx, nm, HEADER, 'bytes * option bytes', cs, chk,
+              lambda i, stream=stream: {'input': stream[i].hex()})
     lines = small_strings(b'{1+}\r', 4 if quick else 6)
     lines = [x + b'\n' for x in lines] + sweep([b'a {12+}\r\n', b'{3+}\n', b'x{0+}\r\n'], vals_) \
         + [b'', b'{3+}', b'{3+}\r', b'{+}\r\n', b'{3+}\r\r\n', b'{3+}\n\n', b'{12{3+}\r\n']
-    lines = thin(ctx, lines, 1000)
+    lines = thin(ctx, lines, 700)
     cl = []
     for ln in lines:
         # as IMAPConnection.readline consults it (only on lines that end in LF)
@@ -633,8 +641,8 @@ def section(ctx) -> None:
             m = IMAPConnection._literal_plus.search(ln)
         cl.append(T.pair(B(ln), 'None' if not m else T.option(T.N(int(m.group(1))))))
         ctx.count(('litplus', ln), nontrivial=bool(m))
-    for i in ctx.run_cases('literal_plus_marker', HEADER, 'bytes * option N', cl, 'chk_litplus', **SH)[:5]:
-        ctx.disagreement('literal_plus_marker', {'line': lines[i].hex()})
+    queue(ctx, 'literal_plus_marker', HEADER, 'bytes * option N', cl, 'chk_litplus',
+          lambda i, lines=lines: {'line': lines[i].hex()})
 
     # --- Commands.parse and read_command on whole client streams
     async def corr():
@@ -648,7 +656,7 @@ def section(ctx) -> None:
                    b'a LOGIN {3}\r\nab', b'a LOGIN {3+}\r\nab', b'a LOGIN u p', b'']
         streams += sweep([b'a LOGIN {1+}\r\nu "p"\r\nb', b'a DELETE {1}\r\nx\r\n'], vals_, not quick)
         streams += [gen_stream(rng) for _ in range(ctx.scale(900, 25000))]
-        streams = thin(ctx, streams, 1300)
+        streams = thin(ctx, streams, 900)
         cr, cc, keep_r, keep_c = [], [], [], []
         for st in streams:
             res = await impl_read_command(config, st)
@@ -681,16 +689,13 @@ def section(ctx) -> None:
         return cr, cc, keep_r, keep_c
     cr, cc, keep_r, keep_c = run(corr(), timeout=600)
     ctx.sample({'stream': keep_r[len(keep_r) // 2].decode('latin-1')})
-    bad = ctx.run_cases('read_command', HEADER, 'bytes * option (command * bytes * N)', cr,
-                        'chk_read', **SH)
-    for i in bad[:40]:          # failing-input search first: the stream on a live server
-        e2e_from_stream(ctx, keep_r[i])
-    for i in bad[:5]:
-        ctx.disagreement('read_command', {'stream': keep_r[i].hex()})
-    for i in ctx.run_cases('commands_parse', HEADER, 'list bytes * bytes * xres command', cc,
-                           'chk_command', **SH)[:5]:
-        ctx.disagreement('commands_parse', {'line': keep_c[i][0].hex(),
-                                            'conts': [c.hex() for c in keep_c[i][1]]})
+    queue(ctx, 'read_command', HEADER, 'bytes * option (command * bytes * N)', cr, 'chk_read',
+          lambda i, keep_r=keep_r: {'stream': keep_r[i].hex()},
+          # failing-input search first: the disagreeing stream on a live server
+          pre=lambda i, keep_r=keep_r: e2e_from_stream(ctx, keep_r[i]))
+    queue(ctx, 'commands_parse', HEADER, 'list bytes * bytes * xres command', cc, 'chk_command',
+          lambda i, keep_c=keep_c: {'line': keep_c[i][0].hex(),
+                                    'conts': [c.hex() for c in keep_c[i][1]]})
 
     # --- end-to-end metamorphic monitor
     e2e_monitor(ctx)
